@@ -15,14 +15,16 @@ PROPS = {
                    'solver holding the same LP must return exactly the statuses (user names or default names, standard or CPLEX flag); '
                    'writeStateReal(.., writeZeroObjective=true) -> loadSettingsFile + readFile + readBasisFile into a new solver must '
                    'reproduce every parameter, the LP dimensions, the statuses (mapped by name) and, for instances with certified class, '
-                   'the status and optimal value of the re-solve.',
+                   'the status and optimal value of the re-solve; writeStateRational(.., writeZeroObjective=true) of a solver holding the rational LP '
+                   '(sync mode auto) -> readFile must be accepted and keep every column (empty zero-objective columns counted).',
         level_note='equal-bound variables may come back FIXED; the writer path "LP held outside the solver" is exercised only as far as '
                    'public histories reach it (hasBasis after a solve with simplifier keeps the LP loaded) and is reported, not claimed',
         technique='runtime monitoring: write/read round-trip oracle on real files over seeded bases and configurations, under ASan+UBSan',
         stages=lambda t: two_flavour('h_state', 600, 2400, 10000, 40000)(t) + [memcheck_stage('h_state', 48, 320)(t)],
         minima=lambda t: {'memcheck.cases_completed': 44, 'c14.basis_roundtrips.defaultnames.std': 100, 'c14.basis_roundtrips.usernames.cpx': 100, 'c14.source.setBasis': 100,
                           'c14.bases_with_nonbasic_at_upper': 100, 'c14.bases_with_free_nonbasic': 20, 'c14.state_roundtrips.usernames.std': 50,
-                          'c14.state_resolves': 100},
+                          'c14.state_resolves': 100,
+                          'c14.rational_state_roundtrips.usernames.std': 50, 'c14.rational_state_roundtrips.with-empty-zero-objective-column': 30},
         eval_counter='cases', distinct_set='nontrivial',
         rule='case k -> (LP family, seeded LP, configuration (default in half of the cases), basis source, user/default names, cpx flag); '
              'distinct = hash(LP signature x configuration x scenario seed)',
